@@ -194,3 +194,32 @@ def run(ctx):
         ctx.case(('anti', tuple(lst)), True)
         if got != 'err ValueError':
             ctx.fail('stabilizer_state', 'anticommuting stabilizers not rejected with ValueError (%s)' % got, dict(stabs=lst))
+    # dependent commuting lists (two or more stabilizers) rejected
+    for _ in range(ctx.budget(60, 500)):
+        n = rng.choice([2, 3, 4, 5])
+        rows, _r = G.rand_tableau(rng, n, 0)
+        L0 = rng.randrange(1, n + 1)
+        sel = [rows[i] for i in rng.sample(range(n), L0)]
+        # a product of a non-empty selection (or a repeated element, or the identity) is appended: the list becomes dependent
+        kind = rng.choice(['product', 'product', 'repeat', 'identity'])
+        if kind == 'product':
+            sub = [x for x in sel if rng.random() < 0.6] or [sel[0]]
+            extra = O.oprod(sub, n)
+        elif kind == 'repeat':
+            extra = rng.choice(sel)
+        else:
+            extra = (tuple('I' * n), 0)
+        extra = (extra[0], rng.choice((0, 2)) if extra[1] % 2 == 0 else 0)
+        lst = list(sel)
+        lst.insert(rng.randrange(len(lst) + 1), extra)
+        try:
+            pc.stabilizer_state(impl.plist(lst, n)); got = 'no error'
+        except ValueError:
+            got = 'err ValueError'
+        except Exception as e:
+            got = impl.errname(e)
+        ctx.q('stabstate', 'stabstate %d %s' % (n, H.erows_ops(lst)), got)
+        ctx.count('dependent:' + kind)
+        ctx.case(('dependent', tuple(lst)), True, sample=dict(op='stabilizer_state', N=n, stabs=lst, kind='dependent'))
+        if got != 'err ValueError':
+            ctx.fail('stabilizer_state', 'dependent stabilizers not rejected with ValueError (%s)' % got, dict(stabs=lst))
